@@ -88,6 +88,29 @@ func zzWrite(a *api.ApiContext, obj interface{}) { zzWritten = append(zzWritten,
 func zzWriteErr(a *api.ApiContext, err error)    { zzErrors = append(zzErrors, err) }
 func zzVars(r *http.Request) map[string]string   { return map[string]string{"id": zzVarID} }
 func zzQuery(u *url.URL) url.Values              { return url.Values{"action": {zzAction}} }
+
+// zzFormAction: the "action" parameter of a form-encoded request body ("" = the body is
+// not a form or does not carry one).  net/http contract: FormValue prefers body
+// parameters of POST/PUT/PATCH requests over the URL query; PostFormValue sees only
+// the body.  The router dispatches on the URL query alone.
+var zzFormAction string
+
+func zzFormValue(r *http.Request, key string) string {
+	if key == "action" {
+		if zzFormAction != "" {
+			return zzFormAction
+		}
+		return zzAction
+	}
+	return ""
+}
+
+func zzPostFormValue(r *http.Request, key string) string {
+	if key == "action" {
+		return zzFormAction
+	}
+	return ""
+}
 type zzRW struct {
 	status int
 	hdr    http.Header
